@@ -31,6 +31,7 @@ type c18srv struct {
 	addr    string
 	gates   sync.Map // request id -> chan struct{}
 	once    sync.Map
+	accepted sync.Map // remote address of every connection OnAccept saw
 	arrived sync.Map // request id -> struct{}
 	hookLog []string
 	hookMu  sync.Mutex
@@ -58,15 +59,25 @@ func (s *c18srv) gate(id string) chan struct{} {
 }
 
 // c18start: transport 0 = standard, 1 = netpoll; hooks: list of sleep durations (ms)
-func c18start(transport int, exitWait time.Duration, hooks []int) *c18srv {
+func c18start(transport int, exitWait time.Duration, hooks []int, acceptDelay ...time.Duration) *c18srv {
 	s := &c18srv{addr: c18freeAddr(), runErr: make(chan error, 1)}
 	tr := standard.NewTransporter
 	if transport == 1 {
 		tr = netpoll.NewTransporter
 	}
-	s.h = server.New(server.WithHostPorts(s.addr), server.WithExitWaitTime(exitWait),
+	opts := []config.Option{server.WithHostPorts(s.addr), server.WithExitWaitTime(exitWait),
 		server.WithTransport(func(o *config.Options) network.Transporter { return tr(o) }),
-		server.WithIdleTimeout(3*time.Second), server.WithReadTimeout(3*time.Second), server.WithDisablePrintRoute(true))
+		server.WithIdleTimeout(3 * time.Second), server.WithReadTimeout(3 * time.Second), server.WithDisablePrintRoute(true)}
+	if len(acceptDelay) > 0 && acceptDelay[0] > 0 {
+		// a slow OnAccept callback: the connection is accepted (the server owns it) but its goroutine has not started
+		d := acceptDelay[0]
+		opts = append(opts, server.WithOnAccept(func(c net.Conn) context.Context {
+			s.accepted.Store(c.RemoteAddr().String(), struct{}{})
+			time.Sleep(d)
+			return context.Background()
+		}))
+	}
+	s.h = server.New(opts...)
 	s.h.GET("/w", func(c context.Context, ctx *app.RequestContext) {
 		id := string(ctx.Query("id"))
 		s.arrived.Store(id, struct{}{})
@@ -141,7 +152,11 @@ func init() {
 			}
 			c18mu.Lock()
 			defer c18mu.Unlock()
-			s := c18start(transport, exitWait, hooks)
+			var acceptDelayIn time.Duration
+			if len(in) > 5 {
+				acceptDelayIn = time.Duration(in.N(5)) * time.Millisecond
+			}
+			s := c18start(transport, exitWait, hooks, acceptDelayIn)
 			var fs []Finding
 			var fmu sync.Mutex
 			bad := func(class, impl string) {
@@ -158,12 +173,21 @@ func init() {
 			for i := range plans {
 				plans[i] = plan{r.Intn(4), r.Intn(int(exitWait/time.Millisecond)/2 + 20)}
 			}
+			if acceptDelayIn > 0 { // directed: connections accepted just before the shutdown call, slow OnAccept
+				for i := range plans {
+					plans[i] = plan{4, 200 + 20*i}
+				}
+			}
+			var servedLate atomic.Int64 // completion time (unix nanos) of the last response of an accepted connection
 			shutdownAt := time.Duration(20+r.Intn(30)) * time.Millisecond
 			t0 := time.Now()
 			for i, pl := range plans {
 				wg.Add(1)
 				go func(i int, pl plan) {
 					defer wg.Done()
+					if pl.kind == 4 {
+						time.Sleep(shutdownAt - 8*time.Millisecond - time.Since(t0))
+					}
 					c, err := net.DialTimeout("tcp", s.addr, time.Second)
 					if err != nil {
 						bad("cannot-connect-before-shutdown", err.Error())
@@ -203,6 +227,27 @@ func init() {
 						txt := reqText(id)
 						fmt.Fprint(c, txt[:len(txt)/2])
 						io.Copy(io.Discard, br)
+					case 4: // accepted a few ms before the shutdown call, request already in the socket
+						time.Sleep(shutdownAt - 4*time.Millisecond - time.Since(t0))
+						fmt.Fprint(c, reqText(id))
+						go func() {
+							time.Sleep(shutdownAt + time.Duration(pl.delay)*time.Millisecond - time.Since(t0))
+							s.release(id)
+						}()
+						res := c18read(br, id)
+						if _, acc := s.accepted.Load(c.LocalAddr().String()); acc {
+							if !res.complete {
+								bad("received-request-without-a-complete-response", id+" (accepted before shutdown): "+res.err)
+							} else {
+								now := time.Now().UnixNano()
+								for {
+									old := servedLate.Load()
+									if now <= old || servedLate.CompareAndSwap(old, now) {
+										break
+									}
+								}
+							}
+						}
 					case 3: // request sent right around the shutdown call
 						time.Sleep(shutdownAt + time.Duration(r.Intn(7)-3)*time.Millisecond - time.Since(t0))
 						s.release(id)
@@ -273,13 +318,15 @@ func init() {
 				if !strings.Contains(log, fmt.Sprintf("start%d", i)) {
 					bad("shutdown-hook-did-not-run", fmt.Sprintf("hook %d; log %s", i, log))
 				}
-				if time.Duration(ms+150)*time.Millisecond < exitWait && !strings.Contains(log, fmt.Sprintf("end%d", i)) {
+				if time.Duration(ms+300)*time.Millisecond < exitWait && !strings.Contains(log, fmt.Sprintf("end%d", i)) {
 					bad("shutdown-returned-before-a-hook-within-the-deadline-finished", fmt.Sprintf("hook %d (%d ms); log %s", i, ms, log))
 				}
 			}
 			// release everything still blocked and let the clients finish
 			for i := range plans {
-				s.release(fmt.Sprintf("c%d", i))
+				if plans[i].kind != 4 { // those are released by their own timer, well after the shutdown call
+					s.release(fmt.Sprintf("c%d", i))
+				}
 			}
 			done := make(chan struct{})
 			go func() { wg.Wait(); close(done) }()
@@ -287,6 +334,12 @@ func init() {
 			case <-done:
 			case <-time.After(exitWait + 5*time.Second):
 				bad("clients-still-blocked", "")
+			}
+			// a Shutdown that returned early claims the server was drained: every connection it had accepted
+			// must have been served by then
+			if late := servedLate.Load(); res1 == nil && d1 < exitWait-100*time.Millisecond && late > shutdownReturned.Load()+int64(60*time.Millisecond) {
+				bad("shutdown-returned-drained-before-an-accepted-connection-was-served",
+					fmt.Sprintf("returned after %v, last response %v later", d1, time.Duration(late-shutdownReturned.Load())))
 			}
 			t.Count(fmt.Sprintf("transport/%d", transport))
 			return fs
@@ -300,6 +353,9 @@ func init() {
 			// directed: a hook that ignores its context and outlives the exit wait time, on both transports
 			t.Do(In{Nn(5), Nn(0), Nn(150), Nn(1), S("5,2650")}, true)
 			t.Do(In{Nn(6), Nn(1), Nn(150), Nn(2), S("2650")}, true)
+			// directed: standard transport, slow OnAccept, connections accepted right before the shutdown call
+			t.Do(In{Nn(7), Nn(0), Nn(600), Nn(2), S("1"), Nn(40)}, true)
+			t.Do(In{Nn(8), Nn(0), Nn(600), Nn(1), S(""), Nn(25)}, true)
 		}})
 }
 
@@ -435,6 +491,31 @@ func init() {
 				}
 				return el[k%len(el)]
 			}
+			// wait until the observable state is the one the model predicts for the operations so far and stays
+			// so for a moment (the poll loop ticks every 10 ms); give up after 3 s and report what was seen
+			settle := func(mops []string) string {
+				margs := [][]byte{}
+				for _, m := range mops {
+					margs = append(margs, []byte(m))
+				}
+				lines := strings.Split(t.M.Call("shutdown_script", margs...), ";")
+				want := lines[len(lines)-1]
+				want = want[strings.Index(want, " ")+1:]
+				deadline := time.Now().Add(3 * time.Second)
+				stable := 0
+				for time.Now().Before(deadline) {
+					time.Sleep(8 * time.Millisecond)
+					if snapshot() == want {
+						stable++
+						if stable >= 4 {
+							return want
+						}
+					} else {
+						stable = 0
+					}
+				}
+				return snapshot() + " (settled; model expects: " + want + ")"
+			}
 			shutdownStarted, expired := false, false
 			var fs []Finding
 			for _, f := range in {
@@ -538,8 +619,7 @@ func init() {
 				default:
 					continue
 				}
-				time.Sleep(45 * time.Millisecond) // a few poll ticks
-				outs = append(outs, snapshot())
+				outs = append(outs, settle(mops))
 			}
 			for i, c := range conns {
 				if state[i] == "busy" {
